@@ -1,9 +1,14 @@
 """C04 — every concrete execution of a method is a path in its CFG.
 
-Control-flow skeletons (lib/gen_cf.py) are rendered per language, analysed by real lang+P1 runs, and executed by the
-reference executor on enumerated decision vectors; each activation's statement trace must be a path of the method's
-CFG read from semantic_p1/cfg.bundle*. The executor's control flow is validated on the same inputs against CPython /
-node (the out(K) sequence identifies the executed simple statements)."""
+Control-flow skeletons (lib/gen_cf.py) are rendered per language (Python, JavaScript, TypeScript, Java, C, PHP, Go),
+analysed by real lang+P1 runs, and executed by the reference executor on enumerated decision vectors; each activation's
+statement trace must be a path of the method's CFG read from semantic_p1/cfg.bundle*. The executor's control flow is
+validated on the same inputs against a real engine (the out(K) sequence identifies the executed simple statements):
+CPython, node (JavaScript and — same text — TypeScript), javac+java, gcc; PHP and Go have no runtime in the sandbox, for
+them the engine is node on the JavaScript rendering of the same skeleton with the same decision vector.
+A failing pair is attributed to a mechanism: a transfer the executor tagged (exception / finally / case end), a block
+column or operation ControlFlowAnalysis does not read (cfg-does-not-read:<operation>.<column>), else the shape of the
+missing node / edge."""
 import json
 import os
 import random
@@ -14,8 +19,30 @@ from lib import common, forkpool, lianrun
 
 PROP = "C04"
 BATCH = 60
-LANGS = ["python", "javascript", "java", "c"]
+LANGS = ["python", "javascript", "typescript", "java", "c", "php", "go"]
 VEC_CAP = 48
+# ground truth of an execution: the language's own runtime where the sandbox has one; for the others node's result on
+# the JavaScript rendering of the same skeleton with the same decision vector ("twin", see lib/gen_cf.py)
+GROUND_TRUTH = {"python": "CPython", "javascript": "node", "typescript": "node (same text)", "java": "javac+java", "c": "gcc",
+                "php": "node on the JavaScript twin", "go": "node on the JavaScript twin"}
+# compensation switches of the reference executor (each emulates one repaired lowering that is another property's finding,
+# or — switch-body-column — lets the executor run what the CFG builder cannot read, so that the missing edges are seen)
+VM_SWITCHES = {"typescript": ("expression-stmt-rows", "try-body-columns"), "go": ("go-struct-type-decl", "switch-body-column")}
+# random skeletons per language (quick, thorough); the systematic skeletons are always all used
+N_RANDOM = {"python": (400, 6000), "javascript": (400, 6000), "java": (400, 6000), "c": (400, 6000),
+            "typescript": (250, 4000), "php": (250, 4000), "go": (250, 4000)}
+# floors on validated executions per language (quick tier observes: typescript 13 000, php 12 600, go 9 000; a frontend whose
+# lowering stops agreeing with the ground truth on a large scale makes the run inconclusive instead of silently thinner)
+VALIDATED_FLOOR = {"typescript": 10000, "php": 9000, "go": 6500}
+# block-valued columns ControlFlowAnalysis reads per operation (src/lian/basics/control_flow.py)
+CFG_READS = {
+    "if_stmt": ("then_body", "else_body"), "while_stmt": ("condition_prebody", "body", "else_body"),
+    "forin_stmt": ("condition_prebody", "body", "else_body"), "for_value_stmt": ("condition_prebody", "body", "else_body"),
+    "dowhile_stmt": ("body", "condition_prebody"), "for_stmt": ("init_body", "condition_prebody", "update_body", "body"),
+    "switch_stmt": ("body",), "case_stmt": ("body",), "default_stmt": ("body",),
+    "try_stmt": ("body", "catch_body", "else_body", "final_body"), "catch_clause": ("body",),
+}
+DECL_OPS = ("method_decl", "class_decl", "record_decl", "struct_decl", "interface_decl", "enum_decl", "annotation_type_decl")
 
 
 def node_ground_truth(src, vectors):
@@ -27,6 +54,27 @@ def node_ground_truth(src, vectors):
         p = subprocess.run(["node", "-e", drv], capture_output=True, text=True, timeout=60)
         return json.loads(p.stdout.strip().splitlines()[-1])
     except Exception as e:
+        return None
+
+
+def node_ground_truth_batch(items):
+    """items: [(source text, vectors)] -> [ground truth per vector | None] per item, from ONE node process (a node start
+    costs more than running a program on all its vectors). Every program is compiled into its own function scope
+    (`new Function`), so equal names in different programs cannot meet; a program that does not compile yields None.
+    None for the whole batch when node itself fails (the caller then falls back to one process per program)."""
+    drv = ("let cur=[]; function out(v){ cur.push(v); }\n"
+           "const items=" + json.dumps([[t, vs] for t, vs in items]) + ";\nconst all=[];\n"
+           "for (const [src, vs] of items) {\n"
+           "  let main=null; try { main = (new Function('out', src + '\\n; return main;'))(out); } catch (e) { all.push(null); continue; }\n"
+           "  const res=[];\n"
+           "  for (const v of vs) { cur=[]; let r=null, st='ok'; try { r = main(v); } catch (e) { st='throw'; } "
+           "res.push({status: st, outputs: cur, ret: r===undefined?null:r}); }\n"
+           "  all.push(res);\n}\nconsole.log(JSON.stringify(all));\n")
+    try:
+        p = subprocess.run(["node", "-"], input=drv, capture_output=True, text=True, timeout=300)
+        out = json.loads(p.stdout.strip().splitlines()[-1])
+        return out if isinstance(out, list) and len(out) == len(items) else None
+    except Exception:
         return None
 
 
@@ -149,8 +197,16 @@ def owned_rows(unit, mrow):
     declarations of a nested class are included (lian inlines them as definition statements)."""
     own = set()
     member_decl = set()
+    block_parent = getattr(unit, "_verif_block_parent", None)
+    if block_parent is None:
+        block_parent = {r["stmt_id"]: r.get("parent_stmt_id") for r in unit.rows if r.get("operation") == "block_start"}
+        unit._verif_block_parent = block_parent
+    visited = set()
 
     def walk(bid, in_class):
+        if bid in visited:
+            return
+        visited.add(bid)
         for r in unit.blocks.get(int(bid), []):
             own.add(r["stmt_id"])
             if in_class:
@@ -160,11 +216,13 @@ def owned_rows(unit, mrow):
                 continue
             cls = op in ("class_decl", "record_decl", "struct_decl", "interface_decl", "enum_decl")
             for col, v in r.items():
-                if col in ("stmt_id", "parent_stmt_id", "unit_id", "original_stmt", "decorators") or not isinstance(v, (int, float)):
+                if col in ("stmt_id", "parent_stmt_id", "unit_id", "original_stmt", "decorators", "start_row", "start_col", "end_row",
+                           "end_col") or not isinstance(v, (int, float)):
                     continue
                 if isinstance(v, float) and v != v:
                     continue
-                if int(v) in unit.blocks and int(v) != bid:
+                # a block of this statement (a line number or another number may equal the id of an unrelated block)
+                if int(v) in unit.blocks and int(v) != bid and block_parent.get(int(v)) == r["stmt_id"]:
                     walk(int(v), in_class or cls)
     for col in ("parameters", "body"):
         if mrow.get(col) is not None:
@@ -184,6 +242,37 @@ def enclosing_loop(unit, sid, parent_of, row_of, want=("while_stmt", "for_stmt",
     return None
 
 
+def build_programs(lang, skels, renderers=None, cap=VEC_CAP):
+    """[(file name, label, text, runs, gt_text)]; a run = (executor arguments, vector handed to the ground-truth engine)."""
+    from lib import gen_cf
+    renderers = renderers or gen_cf.RENDERERS
+    progs = []
+    for i, (label, body, domains) in enumerate(skels):
+        sk = gen_cf.Skel(body, domains, label)
+        rnd = renderers[lang]()
+        rnd.ident = f"{i:04d}"
+        text = rnd.render(sk)
+        name = f"Sk{i:04d}.java" if lang == "java" else f"s{i:04d}.{rnd.ext}"
+        rng = random.Random(__import__("zlib").crc32(f"{label}:{i}".encode()))
+        raw = gen_cf.vectors(domains, cap, rng) if domains else [[]]
+        twin = getattr(rnd, "twin", None)
+        if twin is not None:
+            trn = renderers[twin]()
+            gt_text = trn.render(sk)
+            gt_vecs = [trn.conv_vector(v, sk) for v in raw]
+        else:
+            gt_text = text
+            gt_vecs = [rnd.conv_vector(v, sk) for v in raw]
+            if lang in ("java", "c"):
+                gt_vecs = [list(v) + [0] for v in gt_vecs]          # int d[] is never empty
+        if hasattr(rnd, "conv_args"):
+            args = [rnd.conv_args(v, sk) for v in raw]
+        else:
+            args = [[v] for v in gt_vecs]
+        progs.append((name, label, text, list(zip(args, gt_vecs)), gt_text))
+    return progs
+
+
 def analyse_batch(job):
     """Child: render, run lang+P1, execute, judge."""
     import pandas as pd
@@ -192,25 +281,34 @@ def analyse_batch(job):
     sc = common.scratch()
     src_dir = os.path.join(sc, f"c04src_{tag}")
     os.makedirs(src_dir, exist_ok=True)
-    progs = []
-    for i, (label, body, domains) in enumerate(skels):
-        sk = gen_cf.Skel(body, domains, label)
-        rnd = gen_cf.RENDERERS[lang]()
-        rnd.ident = f"{i:04d}"
-        text = rnd.render(sk)
-        name = f"Sk{i:04d}.java" if lang == "java" else f"s{i:04d}.{rnd.ext}"
+    if tag == "replay":
+        with open(os.environ["VERIF_REPLAY"]) as f:
+            case = json.load(f)["case"]
+        ext = gen_cf.RENDERERS[lang].ext
+        vec = case.get("vector", [])
+        progs = [("Sk0000.java" if lang == "java" else f"s0000.{ext}", case.get("label", "replay"), case["src"],
+                  [(case.get("args", [vec]), case.get("gt_vector", vec))], case.get("gt_src", case["src"]))]
+    else:
+        progs = build_programs(lang, skels)
+    for name, label, text, runs, gt_text in progs:
         with open(os.path.join(src_dir, name), "w") as f:
             f.write(text)
-        rng = random.Random(__import__("zlib").crc32(f"{label}:{i}".encode()))
-        vecs = gen_cf.vectors(domains, VEC_CAP, rng) if domains else [[]]
-        vecs = [rnd.conv_vector(v, sk) for v in vecs]
-        if lang in ("java", "c"):
-            vecs = [list(v) + [0] for v in vecs]          # int d[] is never empty
-        progs.append((name, sk, text, vecs))
+    rcls = gen_cf.RENDERERS[lang]
+    entry_name = getattr(rcls, "entry", {"java": "main", "c": "main_"}.get(lang, "main"))
+    ret_none = getattr(rcls, "ret_none", None)
+    switches = VM_SWITCHES.get(lang, ())
     st = lianrun.write_settings(os.path.join(sc, f"c04st_{tag}"))
     ws = os.path.join(sc, f"c04ws_{tag}")
     # handler coverage of ControlFlowAnalysis
     import lian.basics.control_flow as cfmod
+    global CFG_READS
+    try:
+        # handlers lowered as catch_stmt are entered since fix 228180c: read off the code under test, so that a regression
+        # is still attributed to cfg-does-not-read:catch_stmt.body
+        if '"catch_stmt"' in __import__("inspect").getsource(cfmod.ControlFlowAnalysis.analyze_try_stmt):
+            CFG_READS = dict(CFG_READS, catch_stmt=("body",))
+    except Exception:
+        pass
     reached = {}
     orig_init = cfmod.ControlFlowAnalysis.__init__
 
@@ -237,14 +335,20 @@ def analyse_batch(job):
             cfg.setdefault(int(r["method_id"]), {}).setdefault(int(r["src_stmt_id"]), set()).add(int(r["dst_stmt_id"]))
     res = {"lang": lang, "handlers": reached, "fails": [], "pairs": 0, "activations": 0, "vectors": 0, "validated": 0,
            "unvalidated": 0, "vm_errors": {}, "programs": 0, "distinct": 0, "opseen": {}, "no_gt": 0}
-    java_gt = java_ground_truth_batch([(n, n[2:6], t, v) for n, _, t, v in progs], sc + "/" + tag) if lang == "java" else {}
-    entry_name = {"java": "main", "c": "main_"}.get(lang, "main")
-    for name, sk, text, vecs in progs:
+    node_gt = None
+    if lang not in ("python", "java", "c"):
+        # javascript, typescript: the analysed text itself; php, go: the JavaScript twin
+        got = node_ground_truth_batch([(gt_text, [g for _, g in runs]) for _, _, _, runs, gt_text in progs])
+        if got is not None:
+            node_gt = {name: g for (name, _, _, _, _), g in zip(progs, got)}
+    java_gt = java_ground_truth_batch([(n, n[2:6], t, [g for _, g in runs]) for n, _, t, runs, _ in progs], sc + "/" + tag) if lang == "java" else {}
+    for name, label, text, runs, gt_text in progs:
         u = unit_of.get(name)
         rows = rows_by_unit.get(u)
         if rows is None:
-            res["fails"].append(("no-gir", f"{lang}: no GIR for a generated program", {"lang": lang, "src": text, "label": sk.label}))
+            res["fails"].append(("no-gir", f"{lang}: no GIR for a generated program", {"lang": lang, "src": text, "label": label}))
             continue
+        vecs = [g for _, g in runs]
         res["programs"] += 1
         unit_probe = girvm.Unit(u, rows, lang)
         parent_of = {}
@@ -257,14 +361,55 @@ def analyse_batch(job):
                 continue
             blk = r.get("parent_stmt_id")
             parent_of[r["stmt_id"]] = parent_of.get(("b", blk), blk) if blk else None
+        def own_unread(r, via_blk=None):
+            """'operation.column' when statement r owns a block that ControlFlowAnalysis does not read (see CFG_READS);
+            via_blk: only the column that names this block."""
+            op = r.get("operation")
+            if op in DECL_OPS:
+                return None
+            cols = {c: int(vv) for c, vv in r.items()
+                    if c not in ("stmt_id", "parent_stmt_id", "unit_id", "start_row", "start_col", "end_row", "end_col")
+                    and isinstance(vv, (int, float)) and vv == vv and int(vv) in unit_probe.blocks
+                    and parent_of.get(("b", int(vv))) == r["stmt_id"]}
+            reads = CFG_READS.get(op)
+            bad = [c for c in sorted(cols) if (via_blk is None or cols[c] == via_blk) and (reads is None or c not in reads)]
+            return f"{op}.{bad[0]}" if bad else None
+
+        def culprit(x, before=False, _cache={}):
+            """'operation.column' of the nearest statement at or above x (inside the method) that owns a block the CFG
+            builder does not read; with before=True also of a statement that precedes x (or one of the statements x is
+            nested in) in its block: the builder walks such a statement's blocks as straight-line code, and a return /
+            break / continue met there ends the enclosing block's graph."""
+            key = (u, x, before)
+            if key in _cache:
+                return _cache[key]
+            cur, prev, found = x, None, None
+            for _ in range(64):
+                r = row_of.get(cur) if cur is not None else None
+                if r is None or found is not None:
+                    break
+                if r.get("operation") in DECL_OPS and prev is not None:
+                    break
+                found = own_unread(r, row_of.get(prev, {}).get("parent_stmt_id") if prev is not None else None)
+                if found is None and before:
+                    for r2 in unit_probe.blocks.get(r.get("parent_stmt_id"), []):
+                        if r2["stmt_id"] == cur:
+                            break
+                        found = found or own_unread(r2)
+                prev, cur = cur, parent_of.get(cur)
+            _cache[key] = found
+            return found
+
         if lang == "python":
             gts = py_ground_truth(text, vecs)
-        elif lang == "javascript":
-            gts = node_ground_truth(text, vecs)
         elif lang == "java":
             gts = java_gt.get(name)
-        else:
+        elif lang == "c":
             gts = c_ground_truth(name, text, vecs, sc + "/" + tag)
+        elif node_gt is not None:
+            gts = node_gt.get(name)
+        else:
+            gts = node_ground_truth(gt_text, vecs)
         if gts is None:
             res["no_gt"] += 1
             gts = [None] * len(vecs)
@@ -273,26 +418,31 @@ def analyse_batch(job):
         static_done = False
         prog_fail = False
         seen_case = set()
-        for v, gt in zip(vecs, gts):
+        for (args, v), gt in zip(runs, gts):
             res["vectors"] += 1
-            vm = girvm.VM([girvm.Unit(u, rows, lang)], lang, budget=20000)
+            vm = girvm.VM([girvm.Unit(u, rows, lang)], lang, budget=20000, switches=switches)
             status = "ok"
             ret = None
+            case_of = {"lang": lang, "src": text, "vector": v, "label": label}
+            if gt_text is not text and gt_text != text:
+                case_of.update(args=args, gt_src=gt_text, gt_vector=v)
             try:
                 if lang == "java":
                     vm.init_unit(vm.units[0])
                     cls = next(c for c in vm.units[0].globals.vars.values() if isinstance(c, girvm.Class) and "main" in c.methods)
-                    ret = vm.call_func(cls.methods["main"], [v], {}, girvm.UNBOUND, {"stmt_id": -1}, cls=cls)
+                    ret = vm.call_func(cls.methods["main"], list(args), {}, girvm.UNBOUND, {"stmt_id": -1}, cls=cls)
                 else:
-                    ret = vm.run_entry(vm.units[0], entry_name, [v])
+                    ret = vm.run_entry(vm.units[0], entry_name, list(args))
             except girvm.GirThrow:
                 status = "throw"
             except girvm.VMError as e:
                 status = "vmerror"
-                key = type(e).__name__ + ":" + str(e)[:60]
+                key = lang + ":" + type(e).__name__ + ":" + __import__("re").sub(r"\d+", "N", str(e))[:70]
                 res["vm_errors"][key] = res["vm_errors"].get(key, 0) + 1
             if status == "vmerror":
                 res["unvalidated"] += 1
+                if os.environ.get("VERIF_C04_DEBUG") and len(res.setdefault("debug", [])) < 4:
+                    res["debug"].append({"label": label, "args": args, "gt": gt, "vm": {"status": key}, "src": text})
                 continue
             outs = []
             for o in (vm.outputs if lang in ("python", "javascript") else [(x,) for x in vm.raw_outputs]):
@@ -301,9 +451,11 @@ def analyse_batch(job):
                 except Exception:
                     outs.append(o[0])
             if gt is None or gt["status"] not in ("ok", "throw") or gt["status"] != status or gt["outputs"] != outs or \
-               (status == "ok" and gt["ret"] != ret):
+               (status == "ok" and (ret_none if gt["ret"] is None else gt["ret"]) != ret):
                 # the executions are only used when the ground-truth engine agrees with the executor on this input
                 res["unvalidated"] += 1
+                if os.environ.get("VERIF_C04_DEBUG") and len(res.setdefault("debug", [])) < 4:
+                    res["debug"].append({"label": label, "args": args, "gt": gt, "vm": {"status": status, "outputs": outs, "ret": ret}, "src": text})
                 continue
             res["validated"] += 1
             for fr in vm.activations:
@@ -316,8 +468,7 @@ def analyse_batch(job):
                 if not tr:
                     continue
                 if g is None:
-                    res["fails"].append(("no-cfg", f"method {methods[mid].get('name')} executed {len(tr)} statements but has no CFG",
-                                         {"lang": lang, "src": text, "vector": v, "label": sk.label}))
+                    res["fails"].append(("no-cfg", f"method {methods[mid].get('name')} executed {len(tr)} statements but has no CFG", dict(case_of)))
                     prog_fail = True
                     break
                 nodes = set(g.keys())
@@ -334,14 +485,15 @@ def analyse_batch(job):
                     owner = row_of.get(parent_of.get(x), {})
                     col = None
                     for c, vv in owner.items():
-                        if c not in ("stmt_id", "parent_stmt_id") and isinstance(vv, (int, float)) and vv == vv and int(vv) == blk:
+                        if c not in ("stmt_id", "parent_stmt_id", "unit_id", "start_row", "start_col", "end_row", "end_col") and \
+                           isinstance(vv, (int, float)) and vv == vv and int(vv) == blk:
                             col = c
                     rows_b = vm.units[0].blocks.get(blk, [])
                     return owner, col, bool(rows_b) and rows_b[0].get("stmt_id") == x, bool(rows_b) and rows_b[-1].get("stmt_id") == x
 
                 KEY_OPS = ("return_stmt", "break_stmt", "continue_stmt", "throw_stmt", "switch_stmt", "if_stmt", "try_stmt",
-                           "catch_clause", "case_stmt", "default_stmt", "while_stmt", "for_stmt", "forin_stmt", "for_value_stmt",
-                           "dowhile_stmt", "method_decl", "class_decl")
+                           "catch_clause", "catch_stmt", "case_stmt", "default_stmt", "while_stmt", "for_stmt", "forin_stmt",
+                           "for_value_stmt", "dowhile_stmt", "method_decl", "class_decl", "fallthrough_stmt")
 
                 def desc_a(x):
                     op = row_of.get(x, {}).get("operation")
@@ -352,7 +504,7 @@ def analyse_batch(job):
                         return "exit"
                     r = row_of.get(x, {})
                     owner, col, first, last = block_col(x)
-                    if r.get("operation") in ("catch_clause", "case_stmt", "default_stmt"):
+                    if r.get("operation") in ("catch_clause", "catch_stmt", "case_stmt", "default_stmt"):
                         return r.get("operation")
                     if r.get("operation") in ("while_stmt", "for_stmt", "forin_stmt", "for_value_stmt", "dowhile_stmt"):
                         return "loop-header"
@@ -376,7 +528,8 @@ def analyse_batch(job):
 
                 problems = []
                 if tr[0] not in nodes:
-                    problems.append((f"node-missing:{desc_a(tr[0])}", tr[0], None))
+                    c0 = culprit(tr[0]) or culprit(tr[0], before=True)
+                    problems.append((("cfg-does-not-read:" + c0) if c0 else f"node-missing:{desc_a(tr[0])}", tr[0], None))
                 elif tr[0] not in indeg0:
                     problems.append((f"first-statement-not-an-entry-node:{desc_a(tr[0])}", tr[0], None))
                 steps = list(zip(tr, tr[1:], range(1, len(tr))))
@@ -387,8 +540,12 @@ def analyse_batch(job):
                     if b in g.get(a, ()) or via_members(a, b) or a == b:
                         continue      # (a == b: an empty-bodied loop re-testing itself; lian's graphs carry no self loops)
                     tags = fr.notes.get(idx)
+                    unread = None if tags else (culprit(b) if b != -1 else None) or culprit(a) or \
+                        (culprit(b, before=True) if b != -1 and b not in nodes else None) or (culprit(a, before=True) if a not in nodes else None)
                     if tags:
                         sig = "unmodelled-transfer:" + tags[0]
+                    elif unread:
+                        sig = "cfg-does-not-read:" + unread
                     elif b != -1 and b not in nodes:
                         sig = f"node-missing:{desc_a(b)}"
                     elif a not in nodes:
@@ -402,7 +559,7 @@ def analyse_batch(job):
                         continue
                     reported.add(sig)
                     res["fails"].append((sig, f"{lang} method {methods[mid].get('name')}: {sig} at {a}->{b}; trace {tr[:30]}",
-                                         {"lang": lang, "src": text, "vector": v, "label": sk.label, "trace": tr[:200], "a": a, "b": b}))
+                                         dict(case_of, trace=tr[:200], a=a, b=b)))
                     prog_fail = True
                 for a, b in zip(tr, tr[1:]):
                     k = (row_of.get(a, {}).get("operation"), row_of.get(b, {}).get("operation"))
@@ -420,11 +577,15 @@ def analyse_batch(job):
             nodes = set(g.keys())
             for ds in g.values():
                 nodes |= ds
-            alien = [n for n in nodes if n != -1 and n not in own]
+            alien = sorted(n for n in nodes if n != -1 and n not in own)
             if alien:
-                res["fails"].append((f"alien-node:{row_of.get(alien[0], {}).get('operation')}",
-                                     f"CFG of {mrow.get('name')} contains statement {alien[0]} that is not part of the method",
-                                     {"lang": lang, "src": text, "label": sk.label}))
+                # a block marker as a node: the statement owning the block was walked through as if it were straight-line code
+                owner = parent_of.get(("b", alien[0])) if alien[0] in unit_probe.blocks else None
+                unread = culprit(owner) if owner is not None else None
+                res["fails"].append((("cfg-does-not-read:" + unread) if unread else f"alien-node:{row_of.get(alien[0], {}).get('operation')}",
+                                     f"CFG of {mrow.get('name')} contains node {alien[0]} that is " +
+                                     ("a block marker, not a statement" if owner is not None else "not part of the method"),
+                                     {"lang": lang, "src": text, "label": label}))
             for n in nodes:
                 op = row_of.get(n, {}).get("operation")
                 if op == "continue_stmt":
@@ -441,7 +602,11 @@ def analyse_batch(job):
                                 enclosing_loop(unit_probe, sw["stmt_id"], parent_of, row_of)["stmt_id"] == loop["stmt_id"]
                             res["fails"].append(("continue-wrong-target:" + ("inside-switch" if inner_sw else "other"),
                                                  f"continue_stmt {n} is wired to {bad} outside its loop {loop['stmt_id']}",
-                                                 {"lang": lang, "src": text, "label": sk.label}))
+                                                 {"lang": lang, "src": text, "label": label}))
+    # each child removes its own sources / workspace / compiler output (the parent's single rmtree at exit took a minute under load)
+    import shutil
+    for d in (src_dir, ws, st, os.path.join(sc, tag)):
+        shutil.rmtree(d, ignore_errors=True)
     return res
 
 
@@ -450,13 +615,18 @@ def main():
     from lib import gen_cf
     chk = common.Check(PROP, rule=(
         "control-flow skeletons: systematic (every outer x inner construct nesting in 4 positions, with/without trailing "
-        "statement) + seeded random skeletons to depth 3, rendered for Python and JavaScript; decision vectors enumerated "
-        "exhaustively up to 48 per skeleton (sampled beyond); distinct_nontrivial = distinct activation traces with >= 3 statements "
-        "that were checked against the CFG"))
+        "statement) + seeded random skeletons to depth 3, rendered for Python, JavaScript, TypeScript, Java, C, PHP and Go "
+        "(per language only the constructs it can express); decision vectors enumerated exhaustively up to 48 per skeleton "
+        "(sampled beyond); distinct_nontrivial = distinct activation traces with >= 3 statements that were checked against the CFG"))
     thorough = chk.tier == "thorough"
     rp = os.environ.get("VERIF_REPLAY")
     jobs = []
     samples = []
+    global LANGS
+    if os.environ.get("VERIF_C04_LANGS") and not rp:
+        # development aid: a run restricted to some frontends can fail, never hold
+        LANGS = [x for x in LANGS if x in os.environ["VERIF_C04_LANGS"].split(",")]
+        chk.note_inconclusive(f"restricted to {LANGS} by VERIF_C04_LANGS")
     if rp:
         with open(rp) as f:
             case = json.load(f)["case"]
@@ -464,22 +634,29 @@ def main():
         jobs.append((case["lang"], "replay", [("replay", None, None)]))
     rng = random.Random(chk.seed)
     if not rp:
+        per_lang = []
         for lang in LANGS:
-            sk = gen_cf.systematic_skeletons(lang)
-            nrand = 400 if not thorough else 6000
+            only = gen_cf.LANG_KINDS.get(lang)
+            sk = gen_cf.systematic_skeletons(lang, only=only)
+            nrand = N_RANDOM[lang][1 if thorough else 0]
             base = rng.randrange(1 << 30)
             for i in range(nrand):
-                s, _ = gen_cf.random_skeleton(base + i, lang, max_depth=rng.choice([2, 3, 3, 4]) if thorough else rng.choice([2, 3]))
+                s, _ = gen_cf.random_skeleton(base + i, lang, max_depth=rng.choice([2, 3, 3, 4]) if thorough else rng.choice([2, 3]), only=only)
                 sk.append(s)
             items = [(s.label, s.body, s.domains) for s in sk]
-            for k in range(0, len(items), BATCH):
-                jobs.append((lang, f"{lang[:2]}{k // BATCH}", items[k:k + BATCH]))
+            per_lang.append([(lang, f"{lang}{k // BATCH}", items[k:k + BATCH]) for k in range(0, len(items), BATCH)])
+        # interleave the languages so that the slow ground-truth engines (javac, gcc) overlap with the fast ones
+        while any(per_lang):
+            for lst in per_lang:
+                if lst:
+                    jobs.append(lst.pop(0))
+        for lang in LANGS:
+            sk = [gen_cf.random_skeleton(chk.seed * 7 + 3, lang, max_depth=3, only=gen_cf.LANG_KINDS.get(lang))[0]]
             r0 = gen_cf.RENDERERS[lang]()
             samples.append({"lang": lang, "label": sk[-1].label, "program": r0.render(sk[-1]), "decision_domains": sk[-1].domains})
     handlers = {}
     opseen = {}
-    fn = analyse_batch if not rp else replay_batch
-    for r in forkpool.run_jobs(fn, jobs, timeout=1800, tag="c04"):
+    for r in forkpool.run_jobs(analyse_batch, jobs, timeout=1800, tag="c04"):
         if r.status != "ok":
             chk.fail(f"analysis-died:{r.item[0]}:{r.value[0] if r.status == 'exception' else r.status}",
                      f"lang+P1 over a batch of generated {r.item[0]} programs ended with {r.status}: {str(r.value)[:400]} {r.log_text(600)}",
@@ -499,6 +676,8 @@ def main():
             handlers[k] = handlers.get(k, 0) + n
         for k, n in v["opseen"].items():
             opseen[k] = opseen.get(k, 0) + n
+        for dbg in v.get("debug", []):
+            print("DEBUG-UNVALIDATED", json.dumps(dbg))
         for k, n in v["vm_errors"].items():
             chk.extra.setdefault("executor_errors", {})
             chk.extra["executor_errors"][k] = chk.extra["executor_errors"].get(k, 0) + n
@@ -519,44 +698,26 @@ def main():
         if miss:
             chk.note_inconclusive(f"CFG handlers never reached: {miss}")
         for lang in LANGS:
-            chk.require(f"{lang}: executions validated against ground truth and checked", 1000)
+            chk.require(f"{lang}: programs analysed", 500)
+            chk.require(f"{lang}: executions validated against ground truth and checked", VALIDATED_FLOOR.get(lang, 1000))
+            chk.require(f"{lang}: activations checked", VALIDATED_FLOOR.get(lang, 1000))
     else:
         chk.nontrivial_case("replay-a"); chk.nontrivial_case("replay-b")
     for s in samples:
         chk.sample(s)
     chk.assumptions += [
-        "an execution is used only when CPython (Python) / node (JavaScript) agree with the reference executor on outputs and return value for that input",
+        "an execution is used only when the ground-truth engine (" + "; ".join(f"{k}: {v}" for k, v in GROUND_TRUTH.items()) +
+        ") agrees with the reference executor on outputs and return value for that input",
+        "PHP and Go have no runtime here: their renderers produce only shapes whose meaning is that of the JavaScript rendering of the same "
+        "skeleton (PHP: `continue N` names the loop through enclosing switches, nested functions get the decision vector as a parameter; "
+        "Go: no try and no do-while, `fallthrough` where the JavaScript case has no break, range loops over a second parameter)",
+        "TypeScript expression_stmt rows, the Go struct type_decl and the Go switch clause column are executed through the executor's "
+        "compensation switches (expression-stmt-rows, try-body-columns, go-struct-type-decl, switch-body-column); they are C02/C04 findings, not executor guesses",
         "exceptions arise only from an explicit raise/throw placed under a decision",
         "a class declaration may pass through its member declarations (lian inlines them as definition statements)",
         "a statement followed by itself (empty-bodied loop re-testing its condition) needs no self edge",
     ]
     sys.exit(chk.finish())
-
-
-def replay_batch(job):
-    """Replay: the stored source is analysed as is; executed on the stored vector."""
-    lang, tag, _ = job
-    with open(os.environ["VERIF_REPLAY"]) as f:
-        case = json.load(f)["case"]
-    from lib import gen_cf
-
-    class Fixed:
-        ext = gen_cf.RENDERERS[lang].ext
-
-        def render(self, sk):
-            return case["src"]
-
-        def conv_vector(self, v, sk):
-            return v
-    saved = gen_cf.RENDERERS[lang]
-    gen_cf.RENDERERS[lang] = Fixed
-    saved_vec = gen_cf.vectors
-    gen_cf.vectors = lambda d, c, r: [case.get("vector", [])]
-    try:
-        return analyse_batch((lang, tag, [("replay", [], [(0,)])]))
-    finally:
-        gen_cf.RENDERERS[lang] = saved
-        gen_cf.vectors = saved_vec
 
 
 if __name__ == "__main__":
